@@ -81,35 +81,45 @@ def run(ck):
           and names == ["c_prefetch", "c_var", "c_main", "c_mem", "c_updt"], cg.where(prod),
           "segments are returned as %s and unpacked as %s" % ([norm(e) for e in rets[0].value.elts] if rets else None, names))
 
-    def chk(kind):
-        def p(nd):
-            if not any(dotted(c.func) == "self.gen_check_memory_exception" for c in node_calls(nd)):
-                return False
-            tests = " ".join(_dominating_tests(cfg, nd))
-            if kind == "read":
-                return "prefetch" in tests or "mem_read" in tests
-            return "mem_write" in tests
-        return p
-    preds = {
-        "prefetch": lambda nd: _emits(nd, n_prefetch),
-        "eval": lambda nd: _emits(nd, n_main),
-        "test_read": chk("read"),
-        "commit_mem": lambda nd: _emits(nd, n_mem),
-        "test_write": chk("write"),
-        "commit_regs": lambda nd: _emits(nd, n_updt),
-        "test_cpu": lambda nd: any(dotted(c.func) == "self.gen_check_cpu_exception" for c in node_calls(nd)),
-    }
-    seq = ["prefetch", "eval", "test_read", "commit_mem", "test_write", "commit_regs", "test_cpu"]
-    ev = find_events(cfg, preds)
-    missing = [k for k in seq if not ev[k]]
-    bad = order_violations(cfg, ev, seq)
-    ck.ob("R1", "CGen.gen_c_code:phases-present", not missing, cg.where(fn), "phases not emitted: %s" % missing)
-    ck.ob("R1", "CGen.gen_c_code:phase-order", not bad, cg.where(fn),
-          "phase order broken: %s" % ["%s must precede %s" % (a, b) for (a, b, _x, _y) in bad[:3]])
-    # unguarded commit: commits must not be conditional on anything
-    for k in ("commit_mem", "commit_regs", "eval"):
-        ok = all(not _dominating_tests(cfg, cfg.nodes[i]) for i in ev[k])
-        ck.ob("R1", "CGen.gen_c_code:%s-unconditional" % k, ok, cg.where(fn), "%s is emitted conditionally" % k)
+    # the emitted sequence itself (partial evaluation of the generator, sa/transterm.cgen_sequence), for the 8 combinations of
+    # "has memory reads" x "has memory writes" x "may set an exception flag": whatever the layout of gen_c_code (tests hoisted,
+    # conditional expressions, helper lists), the C it returns must go  reads, evaluation, [fault test], memory commit, [fault test],
+    # register commit, [cpu exception test]
+    from sa.transterm import cgen_sequence
+    from sa.peval import Undetermined as _Und, UnboundLocal as _Unb
+    missing, bad, cond = set(), [], set()
+    for hp in (False, True):
+        for mw in (False, True):
+            for se in (False, True):
+                try:
+                    sq = cgen_sequence(ck.repo, hp, mw, se)
+                except _Unb as e:
+                    bad.append("gen_c_code fails for reads=%s writes=%s exc=%s: %s" % (hp, mw, se, e))
+                    continue
+                except _Und as e:
+                    raise AnalysisError("CGen.gen_c_code: construct not understood by the partial evaluator (%s)" % e)
+                cfgname = "reads=%s writes=%s exc=%s" % (hp, mw, se)
+                pos = dict((k, [i_ for i_, x in enumerate(sq) if x == "<%s>" % k]) for k in ("prefetch", "main", "mem", "updt", "check_mem", "check_cpu"))
+                for k in ("main", "mem", "updt") + (("prefetch",) if hp else ()):
+                    if len(pos[k]) != 1:
+                        (missing if not pos[k] else cond).add(k)
+                if any(len(pos[k]) != 1 for k in ("main", "mem", "updt")) or (hp and len(pos["prefetch"]) != 1):
+                    continue
+                pm, pc, pu = pos["main"][0], pos["mem"][0], pos["updt"][0]
+                if hp and not pos["prefetch"][0] < pm:
+                    bad.append("%s: memory reads emitted after the evaluation" % cfgname)
+                if not pm < pc < pu:
+                    bad.append("%s: evaluation / memory commit / register commit emitted as %s" % (cfgname, sq))
+                if hp and not any(pm < x < pc for x in pos["check_mem"]):
+                    bad.append("%s: no fault test between the evaluation and the memory commit (%s)" % (cfgname, sq))
+                if mw and not any(pc < x < pu for x in pos["check_mem"]):
+                    bad.append("%s: no fault test between the memory commit and the register commit (%s)" % (cfgname, sq))
+                if se and not any(x > pu for x in pos["check_cpu"]):
+                    bad.append("%s: no cpu exception test after the register commit (%s)" % (cfgname, sq))
+    ck.ob("R1", "CGen.gen_c_code:phases-present", not missing, cg.where(fn), "phases not emitted: %s" % sorted(missing))
+    ck.ob("R1", "CGen.gen_c_code:phase-order", not bad, cg.where(fn), "phase order broken: %s" % bad[:3])
+    for k, nm in (("mem", "commit_mem"), ("updt", "commit_regs"), ("main", "eval")):
+        ck.ob("R1", "CGen.gen_c_code:%s-unconditional" % nm, k not in cond and k not in missing, cg.where(fn), "%s is not emitted exactly once in every configuration" % nm)
     # temporaries: register results are computed into new_dst in c_main and copied in c_updt
     ok_main = ok_updt = False
     for n in walk_body(prod):
@@ -189,6 +199,7 @@ def run(ck):
         "commit_regs": commit(False),
         "test_cpu": lambda nd: any(dotted(c.func) == "self.check_cpu_exception" for c in node_calls(nd)),
     }
+    seq = ["prefetch", "eval", "test_read", "commit_mem", "test_write", "commit_regs", "test_cpu"]
     ev = find_events(cfg, preds)
     missing = [k for k in seq if not ev[k]]
     bad = order_violations(cfg, ev, seq)
